@@ -4,8 +4,10 @@ pub mod c02;
 pub mod c03;
 pub mod c04;
 pub mod c05;
+pub mod c07;
 pub mod c08;
 pub mod c10;
+pub mod c11;
 pub mod c13;
 
 use crate::harness::Prop;
@@ -17,8 +19,10 @@ pub fn by_id(id: &str) -> Option<&'static dyn Prop> {
         "C03" => Some(&c03::C03),
         "C04" => Some(&c04::C04),
         "C05" => Some(&c05::C05),
+        "C07" => Some(&c07::C07),
         "C08" => Some(&c08::C08),
         "C10" => Some(&c10::C10),
+        "C11" => Some(&c11::C11),
         "C13" => Some(&c13::C13),
         _ => None,
     }
